@@ -8,7 +8,8 @@
 //! Australia/Lord_Howe}: local times at 15-minute steps across each zone's DST gap and overlap through every timestamp
 //! construction path; (X) the real CLI binary on one case per group; (W, T) numbers outside the INT range / outside every
 //! date part's range through every extraction and cast path (never a wrapped value); (G) every aggregate name x every
-//! argument form (empty, *, DISTINCT without a column, surplus arguments) in projection, next to a key and in HAVING.
+//! argument form (empty, *, DISTINCT without a column, surplus arguments) in projection, next to a key and in HAVING;
+//! (I) inputs on which every read fails, at each position among regular files (child processes with a time limit).
 //! Oracle: Ok or Err, never a panic (overflow checks are on, so a silent wrap is a panic), never a signal, never a hang.
 
 use serde_json::{json, Value as J};
@@ -582,6 +583,21 @@ fn parts_layer(col: &Collector) {
             col.fail(f);
         }
     }
+    // TRIM over text that starts / ends with one- to three-byte whitespace and other multi-byte characters
+    let tdef = "CREATE TABLE x('^<(.*)>$' => c TEXT TRIM, 'm=(m)' => m TEXT DEFAULT 'm');";
+    for ws in [" ", "\t", "\u{b}", "\u{c}", "\u{a0}", "\u{3000}", "\u{2003}", "\u{85}", "\u{2028}", "\u{200b}", "\u{feff}", "é", "😀"] {
+        for body in ["", "a", "é", "a b"] {
+            for form in 0..5 {
+                let v = match form { 0 => format!("{}{}", ws, body), 1 => format!("{}{}", body, ws), 2 => format!("{}{}{}", ws, body, ws), 3 => format!("{}{}{}{}", ws, ws, body, ws), _ => format!(" {}{}{} ", ws, body, ws) };
+                n += 1;
+                col.eval(1);
+                col.nontrivial(h64(&("T-trim", &v)));
+                for f in extract_case(tdef, &format!("<{}>", v), false) {
+                    col.fail(f);
+                }
+            }
+        }
+    }
     col.layer("T-extreme date parts and array elements", n, true, json!({"numbers": toks, "timestamp_groups": "2..7", "modifiers": ["", "MICROSECONDS"]}));
     col.sample(json!({"layer": "T", "definition": adef, "line": "4294968 4294968", "expect_null": false}));
 }
@@ -621,9 +637,78 @@ fn agg_forms_layer(col: &Collector, tables: &Tables) {
     col.sample(json!({"layer": "G", "statement": "SELECT COUNT(DISTINCT) FROM t", "line": "m=m i=1 r=1.5 t=<a> b=x"}));
 }
 
+/// I: an input "file" on which every read fails (a directory opened like a file) at each position among regular
+/// files; the run must end by itself with a result or an error (child processes with a time limit)
+fn fault_input_layer(col: &Collector) {
+    let def = "CREATE TABLE t('k=(\\\\w+)' => k TEXT, 'v=(\\\\d+)' => v INT);\nCREATE TABLE u('k=(\\\\w+)' => k TEXT, 'y=(\\\\d+)' => y INT);";
+    let content: &[u8] = b"k=a v=1\nk=b v=2\nk=a v=3\n";
+    let stmts = ["SELECT k, v FROM t", "SELECT k, COUNT(*), SUM(v) FROM t GROUP BY k", "SELECT k FROM t LIMIT 2", "SELECT DISTINCT k FROM t WHERE v > 0"];
+    let layouts: Vec<Vec<Option<&[u8]>>> = vec![vec![None], vec![None, Some(content)], vec![Some(content), None], vec![Some(content), None, Some(content)], vec![None, None]];
+    let mut n = 0u64;
+    let mut cases: Vec<(&str, usize, &str)> = Vec::new();
+    for st in stmts {
+        for li in 0..layouts.len() {
+            for fmt in ["json", "csv"] {
+                cases.push((st, li, fmt));
+            }
+        }
+    }
+    n += cases.len() as u64;
+    par_for(cases.len() as u64, |ci| {
+        {
+            {
+                let (st, li, fmt) = cases[ci as usize];
+                let files = &layouts[li];
+                col.eval(1);
+                col.nontrivial(h64(&("I", st, li, fmt)));
+                let r = sut::run_stmt_child(def, st, fmt, files, 8);
+                let dev = match &r {
+                    sut::ChildOut::Done(j) if j["outcome"] == "panic" => Some(format!("panic:{}", j["signature"].as_str().unwrap_or(""))),
+                    sut::ChildOut::Done(_) => None,
+                    sut::ChildOut::Signal(e) => Some(format!("killed-by-signal:{}", e.chars().take(40).collect::<String>())),
+                    sut::ChildOut::Timeout => Some("hang:no result or error within 8 s".to_string()),
+                    sut::ChildOut::Other(e) => {
+                        col.machinery(format!("statement child: {}", e));
+                        None
+                    }
+                };
+                if let Some(d) = dev {
+                    col.fail(fail(
+                        format!("input-fault:{}", d),
+                        format!("`{}` ({}) over inputs {:?} (dir = a directory opened like a file): {}", st, fmt, files.iter().map(|f| if f.is_some() { "file" } else { "dir" }).collect::<Vec<_>>(), d),
+                        json!({"layer": "I", "statement": st, "layout": li, "format": fmt}),
+                        json!("a result or an error"),
+                        json!(format!("{:?}", r)),
+                        li as u64,
+                    ));
+                }
+            }
+        }
+    });
+    // the joined file is a directory
+    {
+        let dirp = sut::tmp_dir();
+        let st = format!("SELECT t.k, y FROM t INNER JOIN u::'{}' ON t.k = u.k", dirp);
+        n += 1;
+        col.eval(1);
+        let r = sut::run_stmt_child(def, &st, "json", &[Some(content)], 8);
+        let dev = match &r {
+            sut::ChildOut::Done(j) if j["outcome"] == "panic" => Some(format!("panic:{}", j["signature"].as_str().unwrap_or(""))),
+            sut::ChildOut::Signal(_) => Some("killed-by-signal".to_string()),
+            sut::ChildOut::Timeout => Some("hang:no result or error within 8 s".to_string()),
+            _ => None,
+        };
+        if let Some(d) = dev {
+            col.fail(fail(format!("input-fault:joined:{}", d), format!("joined file is a directory: {}", d), json!({"layer": "I", "statement": "join", "layout": 99, "format": "json"}), json!("a result or an error"), json!(format!("{:?}", r)), 99));
+        }
+    }
+    col.layer("I-inputs on which reads fail", n, true, json!({"layouts": ["dir", "dir file", "file dir", "file dir file", "dir dir", "joined = dir"], "statements": stmts}));
+}
+
 pub fn run(ctx: &Ctx) -> i32 {
     let col = Collector::new();
     let tables = sut::make_tables(DEF).expect("C09 definition");
+    fault_input_layer(&col);
     join_layer(ctx, &col);
     wrap_layer(&col);
     parts_layer(&col);
@@ -651,6 +736,12 @@ pub fn run(ctx: &Ctx) -> i32 {
 pub fn replay(case: &J) -> Vec<Failure> {
     let tables = sut::make_tables(DEF).unwrap();
     match case["layer"].as_str() {
+        Some("I") => {
+            let col = Collector::new();
+            fault_input_layer(&col);
+            let f = col.failures.lock().unwrap();
+            f.values().flat_map(|v| v.iter().cloned()).filter(|f| f.case["statement"] == case["statement"] && f.case["layout"] == case["layout"] && f.case["format"] == case["format"]).collect()
+        }
         Some("T") => extract_case(case["definition"].as_str().unwrap(), case["line"].as_str().unwrap(), case["expect_null"].as_bool().unwrap_or(false)),
         Some("E") | Some("A") | Some("G") => {
             let line = case["line"].as_str().unwrap_or("").to_string();
